@@ -109,7 +109,7 @@ class Lab:
         self.RE.subscribe(lambda n, d: self.docs.append((n, d)))
         self.RE.msg_hook = lambda m: self.msgs.append(m)
         self.trans_meta = []
-        self.RE.state_hook = lambda new, old: (self.trans.append((str(old), str(new))), self.trans_meta.append((len(self.msgs), self.steps, len(self.docs))))
+        self.RE.state_hook = lambda new, old: (self.trans.append((str(old), str(new))), self.trans_meta.append((len(self.msgs), self.steps, len(self.docs), bool(self.RE._rewindable_flag))))
 
     # ------------------------------------------------------------------ pumping
     def pump_once(self):
